@@ -554,6 +554,55 @@ def extra(tier, seed, stats):
                                  ({'deck': d, 'fault': group, 'site': 0,
                                    'direct': True}, out.detail))
     stats.counts['m_minus_one_faults'] = q
+    # a facet index one beyond the body's facets, for every macrobody kind
+    # (single-facet SPH / ELL included), in a plain cell and under TRCL
+    f_ = 0
+    for (fam, kind), cards in samples.items():
+        if fam != 'macro':
+            continue
+        for k, p, _lab in cards[:2]:
+            nf = mgeom.n_facets(k, p)
+            for with_trcl in (False, True):
+                for idx, must_convert in ((nf, True), (nf + 1, False)):
+                    d = md.new_deck()
+                    d['surfaces'] = [md.surf(1, k, p), md.surf(2, 'so', [60.0])]
+                    inner = md.cell(1, 0, None,
+                                    md.AND(md.F(-1, idx), md.S(-2)),
+                                    imp={'n': 1})
+                    if with_trcl:
+                        inner['trcl'] = {'inline': md.trspec(
+                            [0.5, -0.25, 1.0], None, n_entries=3)}
+                    d['cells'] = [inner,
+                                  md.cell(2, 0, None,
+                                          md.AND(md.CELLC(1), md.S(-2)),
+                                          imp={'n': 1}),
+                                  md.cell(3, 0, None, md.S(2), imp={'n': 0})]
+                    text = mr.render(d)
+                    if must_convert:
+                        base = conv.convert(text)
+                        if not base.ok:
+                            from ..runner import HarnessError
+                            raise HarnessError(
+                                'control deck with facet %d of %s does not '
+                                'convert: %s' % (idx, k, base.brief()))
+                        continue
+                    group = 'facet:index-too-large'
+                    out = judge_fault(text, [], group,
+                                      'facet 1.%d of a %s (%d facets)%s'
+                                      % (idx, k, nf,
+                                         ' under TRCL' if with_trcl else ''),
+                                      ['mnemonic:' + k,
+                                       'facet-fixed:' + ('trcl' if with_trcl
+                                                         else 'plain')], group)
+                    f_ += 1
+                    stats.counts['extra_nontrivial'] += 1
+                    if out is not None:
+                        found.setdefault(out.bucket + ':' + k.lower(),
+                                         ({'deck': d, 'fault': group,
+                                           'site': 0, 'direct': True},
+                                          out.detail))
+    stats.counts['facet_index_faults'] = f_
+    q += f_
     stats.counts['extra_evaluations'] += n + m + q
     return found
 
